@@ -7,6 +7,7 @@
 //	    go f(args)                       -> evaluated in place, vsync.Go(closure)
 //	    make(chan T,n) / send / range / close on local channels -> vsync.Chan[T]
 //	R4  accessor files added to internal packages (see access.go)
+//	R6  scheduling points before/after writes to package-level variables (globals.go)
 package instr
 
 import (
@@ -39,6 +40,7 @@ type Report struct {
 	Wrapped      []string `json:"wrapped_methods"`
 	YieldPoints  []string `json:"yield_points"`
 	YieldMissing []string `json:"yield_points_missing"`
+	GlobalYields []string `json:"global_write_yield_points"`
 	Files        []string `json:"files_rewritten"`
 	WorkerSites  []string `json:"worker_sites"`
 	GoStmts      int      `json:"go_statements"`
@@ -63,6 +65,7 @@ func skipDir(rel string) bool {
 // rewritten path).
 func Rewrite(repo, outDir string, rep *Report) (map[string]string, error) {
 	overlay := map[string]string{}
+	globals := scanGlobals(repo)
 	err := filepath.Walk(repo, func(p string, fi os.FileInfo, err error) error {
 		if err != nil {
 			return err
@@ -81,18 +84,7 @@ func Rewrite(repo, outDir string, rep *Report) (map[string]string, error) {
 		if err != nil {
 			return err
 		}
-		if !bytes.Contains(src, []byte("GOMAXPROCS")) && !bytes.Contains(src, []byte(`"sync"`)) && !bytes.Contains(src, []byte(`"sync/atomic"`)) {
-			hasYield := bytes.Contains(src, []byte(") EncodeFrame() ("))
-			for _, yn := range YieldFuncs {
-				if bytes.Contains(src, []byte("func "+yn+"(")) {
-					hasYield = true
-				}
-			}
-			if !hasYield {
-				return nil
-			}
-		}
-		out, changed, err := rewriteFile(rel, src, rep)
+		out, changed, err := rewriteFile(rel, src, rep, globals[filepath.ToSlash(filepath.Dir(rel))])
 		if err != nil {
 			rep.Unrewritten = append(rep.Unrewritten, rel+": "+err.Error())
 			return nil
@@ -134,7 +126,7 @@ func writeIfChanged(dst string, data []byte) error {
 	return os.WriteFile(dst, data, 0o644)
 }
 
-func rewriteFile(rel string, src []byte, rep *Report) ([]byte, bool, error) {
+func rewriteFile(rel string, src []byte, rep *Report, gvars map[string]globalInfo) ([]byte, bool, error) {
 	fset := token.NewFileSet()
 	f, err := parser.ParseFile(fset, rel, src, parser.ParseComments)
 	if err != nil {
@@ -199,6 +191,14 @@ func rewriteFile(rel string, src []byte, rep *Report) ([]byte, bool, error) {
 		goName = "vsyncgo"
 	}
 
+	gscope := &globalScope{vars: gvars, topLevel: map[*ast.ValueSpec]bool{}}
+	for _, d := range f.Decls {
+		if gd, ok := d.(*ast.GenDecl); ok && gd.Tok == token.VAR {
+			for _, sp := range gd.Specs {
+				gscope.topLevel[sp.(*ast.ValueSpec)] = true
+			}
+		}
+	}
 	for _, d := range f.Decls {
 		fd, ok := d.(*ast.FuncDecl)
 		if !ok || fd.Body == nil {
@@ -276,6 +276,14 @@ func rewriteFile(rel string, src []byte, rep *Report) ([]byte, bool, error) {
 		if n > 0 {
 			rep.GoStmts += n
 			changed = true
+		}
+		// R6: scheduling points around writes to package-level variables
+		if len(gvars) > 0 && !(fd.Recv == nil && fd.Name.Name == "init") {
+			for _, name := range gscope.insertGlobalYields(fd.Body) {
+				rep.GlobalYields = append(rep.GlobalYields, pkgDir+"/"+base+":"+fname+" "+name)
+				needHook = true
+				changed = true
+			}
 		}
 	}
 	if !changed {
